@@ -127,6 +127,7 @@ def c20_parts(tier, seed):
         P("n1", "c20_csp", fl, ["--part", "n1"], require=["satisfiable", "unsatisfiable"]),
         P("n2", "c20_csp", fl, ["--part", "n2"], require=["satisfiable", "unsatisfiable"], deadline_frac=0.9),
         P("n3", "c20_csp", fl, ["--part", "n3"], require=["satisfiable", "unsatisfiable"], deadline_frac=0.9),
+        P("mixed-preferences", "c20_csp", fl, ["--part", "mixed"], require=["satisfiable", "unsatisfiable"], deadline_frac=0.9),
     ]
 
 CHECKS["C20"] = dict(
@@ -134,7 +135,9 @@ CHECKS["C20"] = dict(
     rule="states = constraint systems enumerated (each distinct by construction of the nested enumeration), transitions = solve() calls (all four preference orders "
          "on 1/8 of the systems chosen by a fixed hash of the index, one order otherwise); a system is non-trivial when it has >= 1 constraint and every initial range is non-empty",
     alphabet="1..3 variables; ranges from a boundary list inside [-16,47] incl. empty ranges and the full window; parity none/even/odd; addMinVal/addMaxVal tightenings inside the "
-             "window; constraints v_i {<=,>=,==} v_j + c incl. i == j and 3-cycles",
+             "window; constraints v_i {<=,>=,==} v_j + c incl. i == j and 3-cycles; "
+             "mixed preferences: 3 variables over 4 (6) ranges each, v1 and v2 tied to v0 (and to each other) by {<=,>=,==} with c in -2..2, solved under all 4^3 assignments of a "
+             "value-ordering preference (SMALL, LARGE, MIDDLE_SMALL, MIDDLE_LARGE) to each variable",
     oracle="brute force over all assignments of the initial ranges: solve()==true iff a solution exists; any returned assignment satisfies every range, parity and constraint; "
            "every system with constraints is additionally solved with a history: all but the last constraint, solve(), the last constraint, solve() again - the second answer must be that of the whole system",
     bound=dict(quick="n=1: all ranges x parity x 7 tightenings x <=2 self-constraints (c in 9 values); n=2: 12 ranges x parity x 3 tightenings per variable, <=2 constraints over c in 5 values; "
@@ -298,11 +301,15 @@ def c13_parts(tier, seed):
         return [
             P("3men", T, "fast", ["--part", "3men", "--names", "KQvK,KvKR", "--clocks", "0", "--mrange", 1, "--polls", 3, "--stride", 2], require=["nontrivial", "not_completable_roots"], deadline_frac=0.9),
             P("4men", T, "fast", ["--part", "4men", "--names", "KBNvK,KQvKR", "--clocks", "0", "--mrange", 1, "--polls", 3, "--stride", 499], require=["nontrivial", "timed_second_searches"], deadline_frac=0.9),
+            P("cancelled-build-3men", T, "fast", ["--part", "cancel", "--names", "KQvK,KvKR", "--roots", 3, "--kstride", 1], workers=8, require=["cancelled_first_searches", "nontrivial"], deadline_frac=0.9),
+            P("cancelled-build-4men", T, "fast", ["--part", "cancel", "--names", "KQvKR", "--roots", 2, "--kstride", 128], workers=16, require=["cancelled_first_searches", "nontrivial"], deadline_frac=0.9),
         ]
     return [
         P("3men", T, "fast", ["--part", "3men", "--clocks", "0,99", "--mrange", 2, "--polls", 6], require=["nontrivial", "not_completable_roots"], deadline_frac=0.95),
         P("4men", T, "fast", ["--part", "4men", "--names", "KBNvK,KQvKR,KRvKN,KBBvK,KvKQR,KRvKB", "--clocks", "0,99", "--mrange", 2, "--polls", 6, "--stride", 61], require=["nontrivial"], deadline_frac=0.95),
         P("3men-asan", T, "seq", ["--part", "3men", "--names", "KRvK", "--clocks", "0", "--mrange", 1, "--polls", 3], require=["nontrivial"], deadline_frac=0.95),
+        P("cancelled-build-3men", T, "fast", ["--part", "cancel", "--names", "KQvK,KRvK,KvKQ,KvKR,KBvK", "--roots", 3, "--kstride", 1], workers=8, require=["cancelled_first_searches", "nontrivial"], deadline_frac=0.3),
+        P("cancelled-build-4men", T, "fast", ["--part", "cancel", "--names", "KQvKR,KBNvK,KRvKB", "--roots", 3, "--kstride", 16], workers=16, require=["cancelled_first_searches", "nontrivial"], deadline_frac=0.5),
     ]
 
 CHECKS["C13"] = dict(
@@ -310,7 +317,9 @@ CHECKS["C13"] = dict(
     rule="states = (root position, half-move clock) searches executed, each distinct by construction; transitions = PV lines reported; non-trivial = root is won or lost (a mate distance must be reported exactly)",
     alphabet="roots: every legal placement with the white king in the a1-d1-d4 triangle of the material class (4-men classes thinned by a fixed stride), both sides to move; "
              "clocks: 0 [,99] and every clock at which the 50-move margin 100 - hmc - plies-to-mate is in [-m, m]; search: iterativeDeepening(maxDepth=-1, maxNodes=-1) "
-             "on a 16 MB table (on-demand tablebase built by updateTB), Threads 1, counting stop handler",
+             "on a 16 MB table (on-demand tablebase built by updateTB), Threads 1, counting stop handler; "
+             "cancelled builds: the longest win, the longest loss and a draw of the class, first searched time-only on a fresh table with a stop (Search::timeLimit(0,0), what the protocol "
+             "thread does) delivered at the k-th clock query for every k (4-men: every 128th / 16th, and every k around the end of the build) of the table generation, then searched again without limit and judged",
     oracle="exact DTM from a vector-storage table (C12-checked): completable win/loss => final score 'mate +-N' with N exact and, for wins, the move keeps a shortest mate; "
            "draw => non-mate final score and the move does not lose; mate not completable before the 50-move limit (3-men classes) => final score is not a mate. "
            "Completable: hmc + (2N-1) <= 100 for a win in N, hmc + 2N <= 100 for a loss in N. Final score = last line of the deepest completed iteration",
